@@ -111,6 +111,7 @@ def new_interp(ctx, contract_obj):
     it.stubs.update(contract_obj.stubs(it) or {})
     it.loop_cuts.update(getattr(contract_obj, "loop_cuts", {}) or {})
     it.loop_specs.update(getattr(contract_obj, "loop_specs", {}) or {})
+    it.fn_summaries.update(getattr(contract_obj, "fn_summaries", {}) or {})
     it.frozen_time = bool(getattr(contract_obj, "frozen_time", False))
     return it
 
@@ -169,28 +170,47 @@ def discharge(pc, goal, timeout_ms, stats, use_cvc5=True, both=False, inc=None):
             return "proved", None, "z3-inc"
         if r == z3.sat:
             return "refuted", m, "z3-inc"
-    s = z3.Solver()
-    s.set("timeout", timeout_ms)
-    s.set("random_seed", 1)
-    for c in pc:
-        s.add(c)
-    s.add(neg)
-    t0 = time.time()
-    r = s.check()
-    stats.solver_s += time.time() - t0
-    stats.queries = getattr(stats, "queries", 0) + 1
-    if os.environ.get("PYVC_DUMP") and time.time() - t0 > 5:
-        with open(os.path.join(os.environ["PYVC_DUMP"], "q%d_%s.smt2" % (stats.queries, r)), "w") as _f:
-            _f.write(s.to_smt2())
+    def attempt(ms, intblast=False):
+        sv = z3.SimpleSolver() if intblast else z3.Solver()
+        sv.set("timeout", int(ms))
+        if intblast:
+            sv.set("smt.bv.solver", 2)          # z3's int-blasting: bit-vector terms as linear integer arithmetic
+        else:
+            sv.set("random_seed", 1)
+        for c in pc:
+            sv.add(c)
+        sv.add(neg)
+        t0 = time.time()
+        try:
+            res = sv.check()
+        except z3.Z3Exception:
+            res = z3.unknown                  # (int-blasting does not implement every operator)
+        stats.solver_s += time.time() - t0
+        stats.queries = getattr(stats, "queries", 0) + 1
+        if os.environ.get("PYVC_DUMP") and time.time() - t0 > 5:
+            with open(os.path.join(os.environ["PYVC_DUMP"], "q%d_%s.smt2" % (stats.queries, res)), "w") as _f:
+                _f.write(sv.to_smt2())
+        return res, sv
+    # bit-blasting first with a short budget (decides almost everything in milliseconds), then int-blasting (linear index
+    # arithmetic over several symbolic counts is hopeless for the bit-blaster and trivial for the arithmetic solver),
+    # then bit-blasting with the full budget
+    backend = "z3"
+    r, s = attempt(min(timeout_ms, 4000))
+    if r == z3.unknown:
+        r2, s2 = attempt(min(timeout_ms, 15000), intblast=True)
+        if r2 != z3.unknown:
+            r, s, backend = r2, s2, "z3-intblast"
+        elif timeout_ms > 4000:
+            r, s = attempt(timeout_ms)
     if r == z3.unsat:
         if both:
             r2 = cvc5_check(s.to_smt2(), timeout_ms)
             if r2 == "sat":
                 return "unknown", None, "z3-unsat/cvc5-sat DISAGREE"
-            return "proved", None, "z3+cvc5" if r2 == "unsat" else "z3"
-        return "proved", None, "z3"
+            return "proved", None, backend + "+cvc5" if r2 == "unsat" else backend
+        return "proved", None, backend
     if r == z3.sat:
-        return "refuted", s.model(), "z3"
+        return "refuted", s.model(), backend
     if use_cvc5:
         r2 = cvc5_check(s.to_smt2(), timeout_ms * 3)
         if r2 == "unsat":
@@ -256,6 +276,7 @@ def run_case(cid, case_id, tier="quick", known_regions=None, seed=0):
     stats = Stats()
     stats.queries = 0
     stats.deadline = t_start + budget_s
+    stats.intblast = bool(getattr(c, "intblast", False))
     res = {"contract": cid, "case": case_id, "target": c.target, "paths": 0, "clauses": {}, "exits": {},
            "undecided": None, "by_backend": {}, "exact": "proved", "sample_pre": None}
     for name in c.ensures:
